@@ -99,7 +99,9 @@ impl<T> Future for SyncFut<T> {
     }
 }
 
-const TTLS: [u32; 7] = [3600, 60, 5, 1, 0, 700_000, 30];
+// (The last three: the largest TTL RFC 2181 allows, and two it tells a
+// receiver to treat as zero - most significant bit set.)
+const TTLS: [u32; 10] = [3600, 60, 5, 1, 0, 700_000, 30, 0x7fff_ffff, 0x8000_0000, 0xffff_ffff];
 
 fn ttl_draw(label: &'static str) -> u32 {
     *sim::pick(label, &TTLS)
